@@ -2,16 +2,15 @@
    Proved here: the set semantics of the allocator rollback per allocation area (after the repair of
    D9/D6 nothing at or beyond the restored end marker stays in a free list; exactly the pages the
    transaction took from the free list return). The committed view cannot change without the switch
-   step (C02_uncommitted_invisible). The exact equality rollback(run_tx a body) = a for every body
-   (rollback_exact) is NOT proved in Coq yet; it is decided on the implementation by twin executions
-   and on the model by the allocator scripts (both compare the complete allocator state). *)
-From VF Require Import Region Freelist Alloc RegionProofs AllocProofs.
+   step (C02_uncommitted_invisible). rollback_exact: for every sequence of data allocations and frees the
+   rollback restores the allocator exactly (as a set of free pages + all markers and counters). *)
+From VF Require Import Region Freelist Alloc RegionProofs AllocProofs TxAllocProofs.
 
 Theorem C07_area_rollback : forall ar x,
   wff 2 (a_free ar) -> below (a_free ar) (a_end ar) ->
   sorted_from 2 (t_allocated x) -> 2 <= t_end x ->
   a_end ar - t_end x < 2^32 ->
-  (forall id, In id (t_allocated x) -> ~ inl id (fregions (a_free ar))) ->
+  (forall id, In id (t_allocated x) -> id < t_end x -> ~ inl id (fregions (a_free ar))) ->
   let ar' := area_rollback ar x in
   a_end ar' = t_end x /\ wff 2 (a_free ar') /\
   (forall id, inl id (fregions (a_free ar')) <->
@@ -20,13 +19,29 @@ Theorem C07_area_rollback : forall ar x,
 Proof. exact area_rollback_spec. Qed.
 Print Assumptions C07_area_rollback.
 
-(* full statement, kept visible; see the header comment *)
-Definition C07_rollback_exact_full : Prop :=
-  forall (a : allocst) (ovf : bool) (pct n : Z),
-    DataInv a -> 0 < n < 2^32 ->
-    let t := make_tx a ovf pct in
-    let '(_, _, a1, t1) := data_alloc_regions a t n in
-    data (rollback a1 t1) = data a.
+(* Rollback after ANY sequence of Tx.Alloc/AllocN and Tx.Free steps (dreach: the inductive set of states a
+   data transaction can reach; Free only of pages in use) restores the allocator: all fields outside the
+   data area identical, the data end marker of the begin of the transaction, and a well-formed data free
+   list holding exactly the same pages (same id set, same count). The only size assumption is the one of
+   the source (the region removed at rollback has a 32 bit count). *)
+Theorem C07_rollback_exact : forall a0 w p a t,
+  DataInv a0 -> MetaInv a0 -> dreach a0 w p a t -> a_end (data a) - a_end (data a0) < 2^32 ->
+  let r := rollback a t in
+  maxPages r = maxPages a0 /\ pageSize r = pageSize a0 /\ meta r = meta a0 /\ metaTotal r = metaTotal a0 /\
+  flRoot r = flRoot a0 /\ flPages r = flPages a0 /\
+  a_end (data r) = a_end (data a0) /\ wff 2 (a_free (data r)) /\
+  (forall id, inl id (fregions (a_free (data r))) <-> inl id (fregions (a_free (data a0)))) /\
+  avail (a_free (data r)) = avail (a_free (data a0)).
+Proof. exact rollback_exact. Qed.
+Print Assumptions C07_rollback_exact.
+
+(* the invariant behind it, for every reachable state of a data transaction *)
+Theorem C07_tx_invariant : forall a0 w p a t, DataInv a0 -> dreach a0 w p a t -> TxInv a0 a t.
+Proof. exact dreach_inv. Qed.
+
+(* NOT proved yet: the same statement for transactions that also allocate meta pages (overwrite pages,
+   free-list pages: Ensure/tryGrow/transferToMeta); decided by twin executions on the implementation and
+   by the allocator scripts on the model. *)
 
 (* the instance of it for an allocation from the end of the data area of an allocator without free list *)
 Definition ex_a : allocst :=
@@ -40,3 +55,21 @@ Example C07_ex_rollback_exact :
   | None => False
   end.
 Proof. vm_compute. reflexivity. Qed.
+
+(* the premises of C07_rollback_exact are satisfiable, and the example history is a dreach history *)
+Example C07_ex_premises : DataInv ex_a /\ MetaInv ex_a.
+Proof.
+  split; constructor; cbn.
+  - split; [constructor | reflexivity].
+  - intros id H. destruct (inl_nil _ H).
+  - discriminate.
+  - split; [constructor | reflexivity].
+  - intros id H. destruct (inl_nil _ H).
+Qed.
+Example C07_ex_reach : exists a t, dreach ex_a false 0 a t /\ a_end (data a) = 11.
+Proof.
+  destruct (data_alloc_regions ex_a (make_tx ex_a false 0) 5) as [[[regs cnt] a1] t1] eqn:E.
+  exists a1, t1. split.
+  - eapply dr_alloc; [apply dr_init | | exact E]. split; reflexivity.
+  - vm_compute in E. injection E as _ _ <- _. reflexivity.
+Qed.
